@@ -146,7 +146,7 @@ fn gen_c13(tier: &str, rng: &mut Rng) -> Vec<Case> {
     let n = if tier == "thorough" { 80000 } else { 3000 };
     let mut cases = Vec::new();
     for gi in 0..n {
-        let o = GenOpts { tables: 0, pre: false, links: true, ids: false, imgs: true, sup: true, strike: true, br: true, dl: true, ws_noise: true, ..Default::default() };
+        let o = GenOpts { tables: 0, pre: false, links: true, odd_links: true, ids: false, imgs: true, sup: true, strike: true, br: true, dl: true, ws_noise: true, ..Default::default() };
         let (html, ast) = gen_doc(rng, o);
         let kind = rng.below(4);
         let ast2 = match kind {
@@ -893,6 +893,17 @@ fn gen_c09(tier: &str, rng: &mut Rng) -> Vec<Case> {
         let id = cases.len();
         cases.push(mk_case(id, 1, cfg, w, html.into_bytes(), Some(1), g(""), if tables { "tables" } else { "flow" }));
     }
+    // preformatted blocks cut into pieces: the continuation flag of every piece (C12's family and
+    // its tag check, rich decorator only)
+    let mut extra = gen_c12(if tier == "thorough" { "thorough" } else { "quick" }, rng);
+    extra.retain(|c| c.spec.cfg.deco == 2);
+    extra.truncate(n / 3);
+    for mut c in extra {
+        c.spec.id = cases.len();
+        c.group = cases.len();
+        c.slice = "pre_pieces";
+        cases.push(c);
+    }
     cases
 }
 fn parse_inline_colour(style: &str) -> Option<(bool, (u8, u8, u8))> {
@@ -910,7 +921,22 @@ fn parse_inline_colour(style: &str) -> Option<(bool, (u8, u8, u8))> {
 }
 fn check_c09(cases: &[Case], results: &[Option<RunResult>]) -> Vec<Violation> {
     let mut v = Vec::new();
+    {
+        let idx: Vec<usize> = (0..cases.len()).filter(|i| cases[*i].slice == "pre_pieces").collect();
+        let sub_cases: Vec<Case> = idx.iter().map(|i| cases[*i].clone()).collect();
+        let sub_results: Vec<Option<RunResult>> = idx.iter().map(|i| results[*i].clone()).collect();
+        for mut x in check_c12(&sub_cases, &sub_results) {
+            x.case_idx = idx[x.case_idx];
+            // (the recorded class of C12 is C12's to report)
+            if x.known.is_none() && x.clause.contains("tag") {
+                v.push(x);
+            }
+        }
+    }
     for (i, c) in cases.iter().enumerate() {
+        if c.slice == "pre_pieces" {
+            continue;
+        }
         let r = match &results[i] {
             Some(r) => r,
             None => continue,
@@ -1405,6 +1431,51 @@ fn gen_c03(tier: &str, rng: &mut Rng) -> Vec<Case> {
         // the labelled model route (2) gives provenance for the decorated configurations
         cases.push(mk_case(id, 1, cfg, w, bytes, Some(2), g(""), if tables { "tables" } else { "flow" }));
     }
+    // blocks shown or hidden by competing display rules of equal specificity (the later one wins):
+    // the text of exactly the shown blocks is rendered
+    let nd = if tier == "thorough" { 20000 } else { 1500 };
+    for k in 0..nd {
+        let classes = ["k1", "k2", "k3", "k4", "k5"];
+        // rule i: (class, hides?) in source order
+        let nrules = rng.range(2, 5);
+        let rules: Vec<(usize, bool)> = (0..nrules).map(|_| (rng.below(5), rng.chance(1, 2))).collect();
+        let mut html = String::new();
+        let mut expect = String::new();
+        for b in 0..rng.range(2, 7) {
+            let mine: Vec<usize> = (0..5).filter(|_| rng.chance(1, 3)).collect();
+            let tok = format!("t{}b{}x", k, b);
+            let name = *rng.pick(&["p", "div", "li", "blockquote", "h3"]);
+            let cls = mine.iter().map(|c| classes[*c]).collect::<Vec<_>>().join(" ");
+            let el = if cls.is_empty() { format!("<{}>{}</{}>", name, tok, name) } else { format!("<{} class=\"{}\">{}</{}>", name, cls, tok, name) };
+            html.push_str(&if name == "li" { format!("<ul>{}</ul>", el) } else { el });
+            // the last rule that matches decides
+            let hidden = rules.iter().rev().find(|(c, _)| mine.contains(c)).map(|(_, h)| *h).unwrap_or(false);
+            if !hidden {
+                expect.push_str(&tok);
+            }
+        }
+        let sheet: String = rules.iter().map(|(c, h)| format!(".{}{{display:{}}}", classes[*c], if *h { "none" } else { *rng.pick(&["block", "inline", "list-item"]) })).collect::<Vec<_>>().join(if rng.chance(1, 2) { " " } else { "\n" });
+        let mut cfg = Cfg { deco: 3, ..Default::default() };
+        cfg.strike = 2;
+        let html = match rng.below(3) {
+            0 => {
+                cfg.user_css.push(sheet);
+                html
+            }
+            1 => {
+                cfg.doc_css = true;
+                format!("<style>{}</style>{}", sheet, html)
+            }
+            _ => {
+                // the rules split over two style elements
+                cfg.doc_css = true;
+                let cut = sheet.find('}').map(|p| p + 1).unwrap_or(sheet.len());
+                format!("<style>{}</style><style>{}</style>{}", &sheet[..cut], &sheet[cut..], html)
+            }
+        };
+        let id = cases.len();
+        cases.push(mk_case(id, 1, cfg, rng.range(8, 80), html.into_bytes(), Some(1), Meta::G { role: "css_display", strs: vec![expect], nums: vec![] }, "css_display"));
+    }
     // tiny tables at narrow widths, with and without borders (the stacked / side-by-side window)
     let nt = if tier == "thorough" { 20000 } else { 1500 };
     for _ in 0..nt {
@@ -1483,6 +1554,13 @@ fn check_c03(cases: &[Case], results: &[Option<RunResult>]) -> Vec<Violation> {
             Some(t) => t,
             None => continue,
         };
+        if c.meta.role() == "css_display" {
+            let got: String = text.chars().filter(|ch| !ch.is_whitespace()).collect();
+            if got != c.meta.strs()[0] {
+                v.push(viol(i, "text of the blocks shown under the style sheet is not exactly what is rendered", format!("expected {:?} got {:?}", c.meta.strs()[0], got), None));
+            }
+            continue;
+        }
         let dom = dom_of(r);
         let vis: Vec<char> = visible_chars_strict(&dom);
         let has_table = has_element(&dom, &["table"]);
@@ -1529,6 +1607,9 @@ fn check_c03(cases: &[Case], results: &[Option<RunResult>]) -> Vec<Violation> {
 /// table-free documents and raw mode, as a multiset otherwise - and every other non-whitespace
 /// character is one the renderer made (label < 16).
 fn check_model_c03(i: usize, c: &Case, r: &RunResult, mo: &Outcome, labels: &Vec<Vec<Vec<u64>>>) -> Option<Violation> {
+    if c.meta.role() == "css_display" {
+        return None; // judged on the implementation's text against the expected blocks
+    }
     let lines = match mo {
         Outcome::Lines(l) => l,
         _ => return None,
